@@ -109,6 +109,15 @@ func (u *Unit) boxIface(st *State, v *Val) *Val {
 		// (not modelled: typed nil) -- keep the reference.
 		if v.S != "0" {
 			st.assumeFact(tImp(app("distinct", v.S, "0"), tEq(app(u.typeofFn(), v.S), u.typeTag(v.T))))
+			// a non-nil pointer to a named struct stored in an interface: errors.As finds it under its own type
+			if p, ok := types.Unalias(v.T).(*types.Pointer); ok {
+				if _, named := types.Unalias(p.Elem()).(*types.Named); named {
+					tn := types.TypeString(v.T, nil)
+					okf := u.d.fun("fn!errors.As!"+tn, []string{SInt}, SBool)
+					valf := u.d.fun("fn!errors.AsVal!"+tn, []string{SInt}, SInt)
+					st.assumeFact(tImp(app("distinct", v.S, "0"), tAnd(app(okf, v.S), tEq(app(valf, v.S), v.S))))
+				}
+			}
 		}
 		return &Val{T: v.T, S: v.S}
 	}
@@ -272,6 +281,9 @@ func (u *Unit) evalIdent(st *State, x *ast.Ident) *Val {
 		}
 		if isSentinel(o) {
 			return u.sentinel(st, o)
+		}
+		if v := u.constPkgVar(st, o); v != nil {
+			return v
 		}
 		if o.Pkg() != nil && o.Parent() == o.Pkg().Scope() {
 			// package-level variable: a one-cell heap
@@ -887,6 +899,26 @@ func (u *Unit) sentinel(st *State, o *types.Var) *Val {
 	u.trusted["package-level error variables are immutable non-nil sentinels"] = true
 	c := u.d.constant("sentinel!"+o.Pkg().Path()+"."+o.Name(), SInt)
 	u.sentinels[c] = true
-	st.assumeFact(app(">", c, "0"))
+	u.d.axiom(app(">", c, "0"))
 	return &Val{T: o.Type(), S: c}
+}
+
+// constPkgVar: a package-level `var x = []T{constants...}` that is never assigned or indexed-assigned anywhere in
+// its package is an immutable table; its contents are taken from the initialiser.
+func (u *Unit) constPkgVar(st *State, o *types.Var) *Val {
+	if o.Pkg() == nil || o.Parent() != o.Pkg().Scope() || kindOf(o.Type()) != kSlice {
+		return nil
+	}
+	info := u.eng.pkgVarInit(o)
+	if info == nil {
+		return nil
+	}
+	key := o.Pkg().Path() + "." + o.Name()
+	u.trusted["package-level table "+key+" is initialised once and never written (checked syntactically in its package)"] = true
+	et := elemType(o.Type())
+	arr := u.d.constant("table!"+key, arrSort(SInt, sortOf(et)))
+	for i, c := range info {
+		u.d.axiom(tEq(app("select", arr, intLit(int64(i))), u.scalar(st, u.constVal(st, c, et))))
+	}
+	return &Val{T: o.Type(), Arr: arr, Len: intLit(int64(len(info))), Nil: "false"}
 }
